@@ -23,6 +23,7 @@ import (
 type ngapCase struct {
 	Entry string          `json:"entry"` // "PDU/<MessageName>" or "<ContainerType>"
 	Val   json.RawMessage `json:"value"`
+	Ext   int             `json:"ext_outside_root,omitempty"` // values generated above the root of an extensible constraint
 	live  interface{}
 }
 
@@ -109,6 +110,7 @@ func genNgapCase(t *rapid.T, allowFragment bool) ngapCase {
 			v := g.Value(e.Type, gen.ParseTag(e.Tag), 1)
 			c = newNgapCase(e.Name, v.Interface())
 		}
+		c.Ext = g.ExtOutside
 		// fragmentation sweep: retry (with fresh draws) until some string got the target length
 		if !allowFragment || g.Forced() || try >= 7 {
 			return c
